@@ -6,7 +6,7 @@ from models import poly, selfcheck
 PROPERTY_ID = "C05"
 RULE = ("programs new(key); input(chunk)*; raw_result|result: keys = r in {0,1,2,unclamped all-ones,max clamped,2 patterns} x s in {0,all-ones,pattern}; "
         "messages = every length 0..=80 (thorough 0..=160) x content patterns, RFC 8439 A.3 wrap-around inputs, crafted r=1 three-block messages whose accumulator lands on "
-        "p-2..p+4; accumulator steering with r in {1,2,4,5}: blocks assembled from 26-bit limb fields at their carry boundaries (every combination), alone, after 1-3 zero blocks (the sum passing 2^130) and with short tails; saturated keys (all-ones, max clamped r) x every sequence of <= 3 blocks with limb fields in {0,max}, and runs of up to 4096 saturated blocks; chunkings = one call, every 2-split (every cut point), every 3-split for lengths <= 50 (thorough), every sequence of <= 3 chunks over "
+        "p-2..p+4; accumulator steering with r in {1,2,4,5}: blocks assembled from 26-bit limb fields at their carry boundaries (every combination), alone, after 1-3 zero blocks (the sum passing 2^130) and with short tails; saturated keys (all-ones, max clamped r) x every sequence of <= 3 blocks with limb fields in {0,max}, and runs of up to 4096 saturated blocks; 1152 committed crafted inputs (full-size keys) whose accumulator enters the final reduction in each of the 32 corner states {pending carry even/odd} x {limbs 2,3,4 saturated or not} x {limb 0 within 5 of 2^26 or not}; chunkings = one call, every 2-split (every cut point), every 3-split for lengths <= 50 (thorough), every sequence of <= 3 chunks over "
         "{0,1,15,16,17,33}; oracle = big-integer definition of RFC 8439 2.5; non-trivial = non-empty message; distinct = program text")
 ASSUMPTIONS = ["the 6-line big-integer Poly1305 of RFC 8439 2.5.1 (validated on 2.5.2 and A.3 #5-#11)", "message content from the pattern alphabet plus crafted wrap-around blocks"]
 
@@ -66,6 +66,20 @@ def crafted():
 
 
 NLIMB = 8
+
+
+def corner_cases():
+    """committed crafted inputs (tools/gen_poly_corners.py): full-size keys and messages whose accumulator enters the final reduction with
+    a pending lazy carry in limb 1 (even / odd excess), limbs 2..4 saturated or not, limb 0 within 5 of 2^26 or not - all 32
+    combinations, 12 inputs each, three pads each; expected tags are recomputed here by the big-integer model"""
+    import json
+    import os
+    path = os.path.join(os.path.dirname(os.path.dirname(os.path.abspath(__file__))), "models", "kats", "poly_corners.json")
+    out = []
+    for v in json.load(open(path)):
+        key, msg = bytes.fromhex(v["key"]), bytes.fromhex(v["msg"])
+        out.append((key, msg))
+    return out
 
 
 def shards(tier):
@@ -204,6 +218,20 @@ def shard_crafted(_, tier):
             tag = obs_of(poly.poly1305(key, pat(7, 0, n)))
             cases.append((prog(H(key), [P(7, 0, n)], "mraw s0"), ["-", "-", tag], None))
             cases.append((prog(H(key), [P(7, 0, 100), P(7, 100, n - 100)], "mraw s0"), ["-", "-", "-", tag], None))
+    # asking twice, and starting over: a second result repeats the tag or refuses loudly (never other bytes), and after reset - whether
+    # a tag was taken or input was abandoned mid-block - the object computes the tag of exactly the bytes that follow
+    key = pat(5, 0, 32)
+    for n in (0, 1, 15, 16, 17, 20, 32, 33, 64):
+        msg = pat(6, 2, n)
+        tag = obs_of(poly.poly1305(key, msg))
+        a1 = P(6, 2, n) if n else "h:"
+        cases.append((prog(H(key), [a1], "mraw s0") + ["mraw s0", "mresult s0"], ["-", "-", tag, (tag, "PANIC"), (tag, "PANIC")], None))
+        for n2 in (0, 1, 5, 15, 16, 21, 40):
+            t2 = obs_of(poly.poly1305(key, pat(7, 1, n2)))
+            a2 = P(7, 1, n2) if n2 else "h:"
+            cases.append((prog(H(key), [a1], "mreset s0") + ["minput s0 %s" % a2, "mraw s0"], ["-", "-", "-", "-", t2], None))
+            cases.append((prog(H(key), [a1], "mraw s0") + ["mreset s0", "minput s0 %s" % a2, "mresult s0", "mreset s0", "minput s0 %s" % a1, "mraw s0"],
+                          ["-", "-", tag, "-", "-", t2, "-", "-", tag], None))
     ck.run(cases, nontrivial=_nt)
     ck.stats.states = len(cases)
     return ck.stats
@@ -212,7 +240,7 @@ def shard_crafted(_, tier):
 def shard_limbs(i, tier):
     ck = core.Checker(PROPERTY_ID)
     cases = []
-    for j, (key, msg) in enumerate(limb_cases(tier) + saturated_cases(tier)):
+    for j, (key, msg) in enumerate(limb_cases(tier) + saturated_cases(tier) + corner_cases()):
         if j % NLIMB != i:
             continue
         tag = obs_of(poly.poly1305(key, msg))
